@@ -3,6 +3,6 @@ CONSTANTS
   StrictA = TRUE
   CheckCat = FALSE
   CheckOrder = TRUE
-INVARIANTS RefinesDict CanonicalOrder
+INVARIANTS RefinesDict CanonicalOrder IterOK PartialOK
 POSTCONDITION TraceAccepted
 CHECK_DEADLOCK FALSE
